@@ -124,16 +124,12 @@ Proof.
   rewrite E. reflexivity.
 Qed.
 
-(* a request-target with a non-ASCII octet is refused (400 Bad URI), unless it
-   begins with "//" -- the exception is the open finding kf_c01_target_nonascii *)
+(* a request-target with a non-ASCII octet is refused (400 Bad URI); the "//"
+   exception was repaired by 574dcaf *)
 Lemma non_ascii_target_refused : forall uri,
-  beqb (firstn 2 uri) [47; 47] = false -> existsb (fun x => 128 <=? x) uri = true ->
-  split_uri uri = SBadURI.
+  existsb (fun x => 128 <=? x) uri = true -> split_uri uri = SBadURI.
 Proof.
-  intros uri H2 H. unfold split_uri. rewrite H2. unfold urlsplit. rewrite H. reflexivity.
+  intros uri H. unfold split_uri. destruct (beqb (firstn 2 uri) [47; 47]).
+  - rewrite H. reflexivity.
+  - unfold urlsplit. rewrite H. reflexivity.
 Qed.
-
-Lemma non_ascii_target_dslash_accepted :
-  exists uri, existsb (fun x => 128 <=? x) uri = true /\
-              match split_uri uri with SOk _ _ _ _ _ => True | _ => False end.
-Proof. exists [47; 47; 97; 233]. split; [reflexivity|]. vm_compute. exact I. Qed.
